@@ -2269,3 +2269,124 @@ Section Shape.
     eapply enc_cell_length; eauto.
   Qed.
 End Shape.
+
+(* ============================================================ PARAMETER LOCALITY
+   cell_fn for column j reads column j's parameter block only. *)
+Section ParamLocal.
+  Variable S : Scalar.
+  Notation XR := (X (car S)).
+
+  Theorem cell_fn_params_local : forall (post : list XR -> list XR) (e e' : encoder S) st ch na cpost j v,
+      enc_agree_at S st j e e' ->
+      cell_in_block S st j (na_cell S na (nth j st (dstats S)) v) ->
+      cell_fn S (Build_config S e st ch na cpost) post j v = cell_fn S (Build_config S e' st ch na cpost) post j v.
+  Proof.
+    intros post e e' st ch na cpost j v Hag Hin. unfold cell_fn. simpl.
+    destruct (na_cell S na (nth j st (dstats S)) v) as [x|z|l|l|vv] eqn:Ec;
+      destruct e; destruct e'; simpl in Hag; try contradiction; simpl; try reflexivity.
+    - destruct Hag as [-> ->]. reflexivity.
+    - destruct Hag as [-> [-> [-> ->]]]. reflexivity.
+    - destruct Hag as [-> ->]. reflexivity.
+    - destruct Hag as [-> ->]. reflexivity.
+    - (* shared embedding table *)
+      destruct Hag as [H0 Hrows]. simpl in Hin. f_equal. unfold embedding_lookup.
+      destruct (emb_index z (nth j (emb_offset S st) 0%nat) <? 0)%Z; [reflexivity|].
+      destruct (Z_lt_dec z 0) as [Hneg | Hpos].
+      + unfold emb_index. destruct (z <? 0)%Z eqn:E; [|apply Z.ltb_ge in E; lia]. simpl. rewrite H0. reflexivity.
+      + rewrite Hrows by lia. reflexivity.
+    - destruct Hag as [-> ->]. reflexivity.
+    - destruct Hag as [-> [-> [-> ->]]]. reflexivity.
+    - destruct Hag as [-> ->]. reflexivity.
+  Qed.
+End ParamLocal.
+
+(* ============================================================ COLUMN ASSOCIATION *)
+Lemma nth_error_Some_seq : forall b r, r < b -> True /\ nth_error (seq 0 b) r = Some r.
+Proof.
+  intros b r H. split; [exact I|]. rewrite (nth_error_nth' (seq 0 b) 0) by (rewrite seq_length; assumption).
+  rewrite seq_nth by assumption. reflexivity.
+Qed.
+
+Lemma cw_local_col : forall {A B} c (f : nat -> A -> option B) m m' o o' j,
+    cw c f m = Some o -> cw c f m' = Some o' ->
+    (forall r' j', j' <> j -> get2 m' r' j' = get2 m r' j') ->
+    forall r' j', j' <> j -> get2 o' r' j' = get2 o r' j'.
+Proof.
+  intros A B c f m m' o o' j H H' Hsame r' j' Hne.
+  specialize (Hsame r' j' Hne).
+  destruct (get2 m r' j') as [x|] eqn:Hx.
+  - destruct (cw_get2 _ _ _ _ _ _ _ H Hx) as [y [Hy Fy]].
+    destruct (cw_get2 _ _ _ _ _ _ _ H' Hsame) as [y' [Hy' Fy']]. congruence.
+  - destruct (get2 o r' j') as [y|] eqn:Hy.
+    + destruct (cw_get2_inv _ _ _ _ _ _ _ H Hy) as [x [Hx' _]]. congruence.
+    + destruct (get2 o' r' j') as [y'|] eqn:Hy'; [|reflexivity].
+      destruct (cw_get2_inv _ _ _ _ _ _ _ H' Hy') as [x [Hx' _]]. congruence.
+Qed.
+
+(* changing one input COLUMN of a stype encoder (any rows of it) moves only that output column *)
+Theorem forward_with_column_local : forall (S : Scalar) post (c : config S) (x x' : input S) o o' k,
+    wf_config S c -> input_ok S c x -> input_ok S c x' ->
+    forward_with S post c x = Some o -> forward_with S post c x' = Some o' ->
+    (forall r j, j <> k -> get2 (cells S (cf_stats S c) x') r j = get2 (cells S (cf_stats S c) x) r j) ->
+    forall r j, j <> k -> get2 o' r j = get2 o r j.
+Proof.
+  intros S post c x x' o o' k Hwf Hin Hin' Hf Hf' Hsame.
+  rewrite forward_with_cellwise in * by assumption.
+  destruct (construct_ok S c); [|discriminate].
+  eapply cw_local_col; eauto.
+Qed.
+
+(* torch.cat(xs, dim=1): where column k of part p ends up *)
+Lemma concat_position : forall {A} (ls : list (list A)) p k,
+    k < length (nth p ls []) ->
+    nth_error (concat ls) (sum (map (@length A) (firstn p ls)) + k) = nth_error (nth p ls []) k.
+Proof.
+  intros A ls. induction ls as [|l ls IH]; intros p k Hk.
+  - destruct p; simpl in Hk; lia.
+  - destruct p; simpl in *.
+    + unfold sum. simpl. rewrite nth_error_app1 by assumption. reflexivity.
+    + unfold sum in *. simpl. rewrite nth_error_app2 by lia.
+      replace (length l + fold_right Nat.add 0 (map (@length A) (firstn p ls)) + k - length l)
+        with (fold_right Nat.add 0 (map (@length A) (firstn p ls)) + k) by lia.
+      apply IH. assumption.
+Qed.
+
+Theorem hcat_position : forall {A} b (xs : list (mat A)) (widths : list nat) o r p k,
+    hcat b xs = Some o -> r < b ->
+    Forall2 (fun x w => rect w x = true) xs widths ->
+    k < nth p widths 0 ->
+    get2 o r (col_offset widths p + k) = get2 (nth p xs []) r k.
+Proof.
+  intros A b xs widths o r p k H Hr HW Hk. unfold hcat in H.
+  destruct (forallb (fun x => length x =? b) xs) eqn:Hb; [|discriminate]. inversion H; subst o. clear H.
+  unfold get2. rewrite nth_error_map. rewrite (proj2 (nth_error_Some_seq b r Hr)). simpl.
+  assert (Hlen : forall q x, nth_error xs q = Some x -> length (nth r x []) = nth q widths 0 /\ length x = b).
+  { intros q x Hq. destruct (Forall2_nth_error_l _ _ _ _ _ HW Hq) as [w [Hw Hrect]].
+    rewrite (nth_error_nth _ _ _ Hw).
+    rewrite forallb_forall in Hb. pose proof (Hb x (nth_error_In _ _ Hq)) as Hx. apply Nat.eqb_eq in Hx.
+    split; [|assumption].
+    apply (proj1 (rect_forall _ x) Hrect). apply nth_In. lia. }
+  assert (Hp : p < length xs).
+  { destruct (Nat.lt_ge_cases p (length xs)) as [L | G]; [assumption|].
+    assert (Hl : length xs = length widths) by (clear - HW; induction HW; simpl; congruence).
+    rewrite nth_overflow in Hk by lia. lia. }
+  destruct (nth_error xs p) as [xp|] eqn:Hxp; [|apply nth_error_None in Hxp; lia].
+  destruct (Hlen p xp Hxp) as [Hwp Hbp].
+  assert (Hoff : col_offset widths p = sum (map (@length A) (firstn p (map (fun x => nth r x []) xs)))).
+  { unfold col_offset. f_equal. clear Hk Hp Hxp Hwp Hbp xp. revert widths HW Hlen p.
+    induction xs as [|x xs IH]; intros widths HW Hlen p; inversion HW; subst; destruct p; simpl; try reflexivity.
+    f_equal.
+    - destruct (Hlen 0 x eq_refl) as [E _]. simpl in E. symmetry. exact E.
+    - apply IH; [simpl in Hb; apply andb_true_iff in Hb; tauto | assumption |].
+      intros q x0 Hq. apply (Hlen (Datatypes.S q) x0 Hq). }
+  assert (Exp : nth p xs [] = xp) by (apply nth_error_nth; assumption).
+  assert (E1 : nth p (map (fun x : list (list A) => nth r x []) xs) [] = nth r xp []).
+  { rewrite (nth_indep _ [] ((fun x : list (list A) => nth r x []) [])) by (rewrite map_length; assumption).
+    rewrite (map_nth (fun x : list (list A) => nth r x [])). rewrite <- Exp. reflexivity. }
+  rewrite Hoff, Exp.
+  rewrite concat_position by (rewrite E1, Hwp; assumption).
+  rewrite E1.
+  destruct (nth_error xp r) as [row|] eqn:Hrow.
+  - rewrite (nth_error_nth _ _ _ Hrow). reflexivity.
+  - apply nth_error_None in Hrow. lia.
+Qed.
